@@ -35,55 +35,74 @@ def run(prog: Program, res: Result, tier: str) -> None:
     prog.consulted.update({RFI, BASE, HEADER, KMOD})
     cls = prog.cls(RFI, "RFIMask")
     # ---- R1 monotone union ------------------------------------------------------------------
+    from ..normalform import canon, normal_form
     n1 = 0
     for m in cls.methods.values():
-        for s in body_walk(m.node):
-            if isinstance(s, ast.Assign) and any(dotted(t) == "self.chan_mask" for t in s.targets):
-                n1 += 1
-                v = s.value
-                key = f"union:{m.name}"
-                ok = isinstance(v, ast.Call) and dotted(v.func) == "np.logical_or" and len(v.args) == 2 and norm(v.args[0]) == "self.chan_mask"
-                comp = norm(v.args[1]) if ok else ""
-                # the component must be the mask stored by this method
-                stored = {dotted(t) for s2 in body_walk(m.node) if isinstance(s2, ast.Assign) for t in s2.targets if dotted(t) and dotted(t).startswith("self.")
-                          and dotted(t) != "self.chan_mask"}
-                flow = flow_of(m)
-                comp_ok = False
-                if ok:
-                    if comp in stored:
-                        comp_ok = True
-                    elif isinstance(v.args[1], ast.Name):
-                        # local that is also stored into a self.<x>_mask field
-                        comp_ok = any(isinstance(s2, ast.Assign) and any((dotted(t) or "") in stored for t in s2.targets) and norm(s2.value) == comp
-                                      for s2 in body_walk(m.node))
-                if ok and comp_ok:
-                    res.ok("R1", m, s, f"chan_mask |= {comp} (the component mask this method stores)", key=key)
-                else:
-                    res.bad("R1", m, s, f"chan_mask is assigned `{norm(v)}`: not np.logical_or(self.chan_mask, <component stored here>) - a later "
-                            f"mask could clear channels or diverge from its recorded component", key=key)
-    res.notes.append(f"assignments to RFIMask.chan_mask: {n1} (3 confirmed by hand; enforced through the R1 floor)")
+        if not any(isinstance(s, ast.Assign) and any(dotted(t) == "self.chan_mask" for t in (s.targets[0].elts if isinstance(s.targets[0], ast.Tuple) else s.targets))
+                   for s in body_walk(m.node)):
+            continue
+        nfm = normal_form(m)
+        for e in nfm.sets("self.chan_mask"):
+            n1 += 1
+            key = f"union:{m.name}"
+            pre = "np.logical_or(self.chan_mask, "
+            ok = e.text().startswith(pre) and e.text().endswith(")")
+            comp = e.text()[len(pre):-1] if ok else ""
+            # the component must be the mask this method records, on the same path
+            stored = [o for o in nfm.effects if o.kind == "set" and o.target.startswith("self.") and o.target != "self.chan_mask" and set(o.ctx) == set(e.ctx)]
+            comp_ok = ok and any(comp in (o.target, o.text()) for o in stored)
+            if ok and comp_ok:
+                res.ok("R1", m, m.node, f"chan_mask |= {comp[:60]} (the component mask this method stores)", key=key, construct=f"{m.name}: chan_mask")
+            else:
+                res.bad("R1", m, m.node, f"chan_mask is assigned `{e.text()[:120]}`: not np.logical_or(self.chan_mask, <component stored here>) - a later "
+                        f"mask could clear channels or diverge from its recorded component", key=key, construct=f"{m.name}: chan_mask")
+    res.notes.append(f"assignments to RFIMask.chan_mask: {n1} (3 methods confirmed by hand; enforced through the R1 floor)")
     am = cls.methods["apply_mask"]
-    src = norm(am.node)
-    ok = "mask = np.logical_and(self.header.chan_freqs >= freq_range[0], self.header.chan_freqs <= freq_range[1])" in src and \
-        "user_mask = np.logical_or(user_mask, mask)" in src and "user_mask = np.zeros(self.header.nchans, dtype='bool')" in src
+    nfa = normal_form(am)
+    zeros = {canon(f"np.zeros(self.header.nchans, dtype={d})") for d in ("'bool'", "bool", "np.bool_")}
+    acc = [e for e in nfa.effects if e.kind == "set" and e.target.startswith("$") and e.text() in zeros]
+    ok = len(acc) == 1
+    if ok:
+        v = acc[0].target
+        F, L = "self.header.chan_freqs", "L<in freq_mask>"
+        inr = {f"np.logical_and(cmp[LtE]({L}[0], {F}), cmp[LtE]({F}, {L}[1]))", f"np.logical_and(cmp[LtE]({F}, {L}[1]), cmp[LtE]({L}[0], {F}))"}
+        ups = [e for e in nfa.effects if e.kind == "set" and e.target == v and e is not acc[0]]
+        ok = len(ups) == 1 and ups[0].text() in {f"np.logical_or({v}, {r})" for r in inr} | {f"np.logical_or({r}, {v})" for r in inr} and \
+            [e.text() for e in nfa.sets("self.user_mask")] == [v]
     (res.ok if ok else res.bad)("R1", am, am.node, "user mask = union over ranges of (lo <= chan_freqs <= hi), starting from all-False" if ok else
                                 "apply_mask no longer builds the closed-range union from an all-False mask", construct="apply_mask", key="apply_mask")
     ap = cls.methods["apply_method"]
-    src = norm(ap.node)
-    ok = "if method == 'mad': method_funcn = double_mad_mask" in src and "elif method == 'iqrm': method_funcn = iqrm_mask" in src and \
-        "raise ValueError(msg)" in src and "mask_var = method_funcn(self.chan_var, self.threshold)" in src and \
-        "mask_skew = method_funcn(self.chan_skew, self.threshold)" in src and "mask_kurtosis = method_funcn(self.chan_kurt, self.threshold)" in src and \
-        "self.stats_mask = np.logical_or.reduce((mask_var, mask_skew, mask_kurtosis))" in src
+    nfp = normal_form(ap)
+    sm = nfp.sets("self.stats_mask")
+    ok = len(sm) == 2
+    for e in sm:
+        fnm = "double_mad_mask" if e.under("method == 'mad'") else "iqrm_mask" if e.under("method == 'iqrm'") else None
+        if fnm is None:
+            ok = False
+            continue
+        parts = ", ".join(f"{fnm}(self.{c}, self.threshold)" for c in ("chan_var", "chan_skew", "chan_kurt"))
+        ok = ok and e.text() in (f"np.logical_or.reduce(({parts}))", f"np.logical_or.reduce([{parts}])")
+    ok = ok and any(e.under("method != 'mad'", "method != 'iqrm'") for e in nfp.raises())
     (res.ok if ok else res.bad)("R1", ap, ap.node, "stats mask = var | skew | kurtosis outliers of the chosen method at self.threshold" if ok else
                                 "apply_method no longer ORs the variance, skewness and kurtosis masks of the chosen method", construct="apply_method", key="apply_method")
-    for fname, want in (("double_mad_mask", ["zscore = stats.estimate_zscore(array, scale_method='doublemad')", "return np.abs(zscore.data) > threshold"]),
-                        ("iqrm_mask", ["zscore = stats.estimate_zscore(lagged_diff, scale_method='iqr')", "mask = np.logical_or(mask, np.abs(zscore.data) > threshold)",
-                                       "mask = np.zeros_like(array, dtype='bool')"])):
-        f = prog.func(RFI, fname)
-        src = norm(f.node)
-        ok = all(w in src for w in want) and "if threshold <= 0:" in src
-        (res.ok if ok else res.bad)("R1", f, f.node, f"{fname}: |z| > threshold (strict), threshold must be positive" if ok else
-                                    f"{fname}: thresholding of the z-scores changed", construct=fname, key=fname)
+    f = prog.func(RFI, "double_mad_mask")
+    nfd = normal_form(f)
+    ok = [e.text() for e in nfd.returns()] == ["cmp[Lt](threshold, np.abs(stats.estimate_zscore(array, scale_method='doublemad').data))"] and \
+        any(e.under("threshold <= 0") for e in nfd.raises())
+    (res.ok if ok else res.bad)("R1", f, f.node, "double_mad_mask: |z| > threshold (strict), threshold must be positive" if ok else
+                                "double_mad_mask: thresholding of the z-scores changed", construct="double_mad_mask", key="double_mad_mask")
+    f = prog.func(RFI, "iqrm_mask")
+    nfq = normal_form(f)
+    accq = [e for e in nfq.effects if e.kind == "set" and e.target.startswith("$") and e.text() in
+            {canon(f"np.zeros_like(array, dtype={d})") for d in ("'bool'", "bool", "np.bool_")}]
+    ok = len(accq) == 1 and any(e.under("threshold <= 0") for e in nfq.raises())
+    if ok:
+        v = accq[0].target
+        ups = [e for e in nfq.effects if e.kind == "set" and e.target == v and e is not accq[0]]
+        ok = len(ups) == 1 and ups[0].text().startswith(f"np.logical_or({v}, cmp[Lt](threshold, np.abs(stats.estimate_zscore(L<in ") and \
+            ups[0].text().endswith(">, scale_method='iqr').data)))") and [e.text() for e in nfq.returns()] == [v]
+    (res.ok if ok else res.bad)("R1", f, f.node, "iqrm_mask: |z| > threshold (strict), threshold must be positive" if ok else
+                                "iqrm_mask: thresholding of the z-scores changed", construct="iqrm_mask", key="iqrm_mask")
     from .c15 import check_doublemad_symmetry
     scratch = Result("C15", prog)
     check_doublemad_symmetry(prog, scratch, "R5")
@@ -92,7 +111,7 @@ def run(prog: Program, res: Result, tier: str) -> None:
                 key=f"{o.rule}:{o.key}", where=o.where)
         res.obligations[-1].file, res.obligations[-1].line = o.file, o.line
     dfl = {m.name: m for m in cls.methods.values() if m.name.startswith("_set_")}
-    ok = all("return np.zeros(self.header.nchans, dtype='bool')" in norm(m.node) for m in dfl.values()) and len(dfl) == 4
+    ok = all([e.text() for e in normal_form(m).returns()] in ([z] for z in zeros) for m in dfl.values()) and len(dfl) == 4
     (res.ok if ok else res.bad)("R1", None, cls.node, "all four masks start as all-False of length nchans" if ok else
                                 "a mask no longer defaults to all-False", construct="defaults", key="defaults", where=f"{RFI}::RFIMask")
 
